@@ -507,6 +507,14 @@ def call(F, fname, *a):
             if verdict == "stale":
                 F.add("stale-state", None, dict(detail, func=fname))
                 raise Abort()
+        if _S["n_" + fname] % 4 == 2:
+            # the same call with the documented parameter names, written in the opposite order
+            verdict, detail = history.keyword_check(_S.get("orig", {}).get(fname) or getattr(_S["em"], fname), a, None, out)
+            hk = "keywords.%s.%s" % (verdict.replace("/", ""), fname)
+            _S.setdefault("hist", {})[hk] = _S.setdefault("hist", {}).get(hk, 0) + 1
+            if verdict in ("differs", "raises"):
+                F.add("keyword-call-differs", None, dict(detail, func=fname))
+                raise Abort()
         if _S["n_" + fname] % 4 == 3 and any(isinstance(v, np.ndarray) and v.ndim >= 1 and v.shape[0] >= 4
                                               for v in a):
             # calls of the same shapes from several threads at once (vt/monitors/concurrency.py); the
